@@ -2,6 +2,7 @@ package dyn
 
 import (
 	"math"
+	"runtime"
 	"unsafe"
 
 	"pipelined.dev/signal"
@@ -47,6 +48,7 @@ func typeProbes[T signal.SignalTypes](name string) func(ch, length int) []Probe 
 		winDst := big.Slice(length+2, length+3)
 		selfDst0 := big.Slice(1, 1+length) // length frames, capacity for more than twice that
 		selfDst := big.Slice(1, 1+length)
+		var aged *signal.PoolAllocator[T]
 		exact := signal.PoolAlloc[T](signal.Allocator{Channels: ch, Length: 0, Capacity: length}) // the source fills it exactly
 		pool := signal.PoolAlloc[T](signal.Allocator{Channels: ch, Length: 0, Capacity: length + 4})
 		poolL := signal.PoolAlloc[T](al)
@@ -116,6 +118,28 @@ func typeProbes[T signal.SignalTypes](name string) func(ch, length int) []Probe 
 					g.AppendSample(T(i % 5))
 				}
 				pool.Put(g)
+			}},
+			{Name: "pool-cycle-on-a-long-lived-pool-emptied-by-collections-many-times[" + name + "]", Run: func() {
+				if aged == nil {
+					// set up on first use: 6 rounds of 8 gets, 8 puts and two
+					// collections (which empty a sync.Pool), then the pool is used again
+					p := signal.PoolAlloc[T](signal.Allocator{Channels: ch, Length: length, Capacity: length + 4})
+					aged = &p
+					for round := 0; round < 6; round++ {
+						var hs [8]*signal.Buffer[T]
+						for i := range hs {
+							hs[i] = aged.Get()
+						}
+						for i := range hs {
+							aged.Put(hs[i])
+						}
+						runtime.GC()
+						runtime.GC()
+					}
+				}
+				g := aged.Get()
+				g.AppendSample(1)
+				aged.Put(g)
 			}},
 			{Name: "pool-cycle+Append-within-capacity[" + name + "]", Run: func() {
 				g := pool.Get()
@@ -214,7 +238,9 @@ func convProbe[S, D signal.SignalTypes](f func(*signal.Buffer[S], *signal.Buffer
 			}
 		}
 		dstLong := parent.Slice(1, 3+length)
-		return func() { SinkInt = f(src, dst) + f(srcLong, dst) + f(src, dstLong) }
+		// the last frames of the parent: no spare capacity, less capacity than the long source has frames
+		dstTail := parent.Slice(5, 5+length)
+		return func() { SinkInt = f(src, dst) + f(srcLong, dst) + f(src, dstLong) + f(srcLong, dstTail) }
 	}
 }
 
